@@ -9,7 +9,7 @@ import time
 
 ROOT = os.path.dirname(os.path.dirname(os.path.abspath(__file__)))
 LEAN = os.path.join(ROOT, "lean")
-HARNESS = os.path.join(ROOT, "harness")
+HARNESS = os.environ.get("VERIF_HARNESS_DIR") or os.path.join(ROOT, "harness")  # (development knob: a copy of the harness pointing at a scratch tree)
 WORK = os.path.join(ROOT, ".work")
 REPO = "/repo"
 ALLOWED_AXIOMS = {"propext", "Classical.choice", "Quot.sound"}
